@@ -147,7 +147,7 @@ func zzH_c18_encodeLength() {
 //
 //verif:property C18
 //verif:expect-reach end
-//verif:bound buffer length 10 or 12 (quick) / 8 or 12 (thorough); length-of-length octet 0x84, 0x88 or 0x89 (quick) / {0x81,0x84,0x88,0x89} (thorough; larger products run over the 600 s budget); tag octet and all length/content octets symbolic; quick: primitive tags only; thorough adds constructed tags and the nested variant 30 LL 30 8x ...
+//verif:bound buffer length 10 or 12 (quick) / 8 or 12 (thorough); length-of-length octet 0x84, 0x88 or 0x89 (quick) / {0x81,0x84,0x88,0x89} (thorough; larger products run over the 600 s budget); tag octet and all length/content octets symbolic; quick: primitive tags only; thorough adds the nested variant 30 LL 30 8x ... on an 8-byte buffer with 8x in {81, 84}
 //verif:unwind 40
 //verif:nomerge
 func zzH_c18_ber_longform() {
@@ -160,8 +160,14 @@ func zzH_c18_ber_longform() {
 		L = []int{8, 12}[vChoice("L", 2)]
 		lo = []byte{0x81, 0x84, 0x88, 0x89}[vChoice("lo", 4)]
 	}
+	nested := vTier() == 1 && vChoice("nested", 2) == 1
+	if nested {
+		// the nested variant descends recursively: one short buffer, two length-of-length octets
+		L = 8
+		lo = []byte{0x81, 0x84}[vChoice("nestedLo", 2)]
+	}
 	b := vBytes("b", L, L)
-	if vTier() == 1 && vChoice("nested", 2) == 1 {
+	if nested {
 		b[0], b[1], b[2], b[3] = 0x30, byte(L-2), 0x30, lo
 	} else {
 		// a primitive tag keeps the quick tier out of the recursive descent
